@@ -15,17 +15,26 @@ pub fn now() -> i64 {
     dt.timestamp_millis()
 }
 
+//dates can come from other peers: values outside of the supported range are clamped to its bounds
+fn from_timestamp_millis(date_time: i64) -> DateTime<Utc> {
+    DateTime::from_timestamp_millis(date_time).unwrap_or(if date_time < 0 {
+        DateTime::<Utc>::MIN_UTC
+    } else {
+        DateTime::<Utc>::MAX_UTC
+    })
+}
+
 //returns the date without time
 pub fn date(date_time: i64) -> i64 {
-    let date = DateTime::from_timestamp_millis(date_time).unwrap();
+    let date = from_timestamp_millis(date_time);
     let ds: NaiveDateTime = date.date_naive().and_hms_opt(0, 0, 0).unwrap();
     ds.and_utc().timestamp_millis()
 }
 
 //returns the next day without time
 pub fn date_next_day(date_time: i64) -> i64 {
-    let date = DateTime::from_timestamp_millis(date_time).unwrap();
-    let date = date + Duration::days(1);
+    let date = from_timestamp_millis(date_time);
+    let date = date.checked_add_signed(Duration::days(1)).unwrap_or(date);
     let ds: NaiveDateTime = date.date_naive().and_hms_opt(0, 0, 0).unwrap();
     ds.and_utc().timestamp_millis()
 }
